@@ -87,6 +87,14 @@ static bool view_of(int kind, Model const& b, Model& out, MV& mvout) {
 	}
 	out.ext = v.size; out.ids.clear(); for(L k = 0; k < v.n(); ++k) out.ids.push_back(b.ids[std::size_t(v.off[std::size_t(k)])]); out.unspec = false; mvout = v; return true;
 }
+// the same views taken from the array as a const object (read-only view types; strided() const& of a D>1 array does not compile on the pinned tree)
+template<class AA, class F, int DD = D> bool with_const_view(int kind, AA const& b, F&& f) {
+	if constexpr(DD >= 1) {
+		switch(kind % 6) { case 5: if constexpr(DD >= 3) { f(b.rotated().transposed().unrotated()); return true; } return false; case 0: if constexpr(DD >= 2) { f(b.transposed()); return true; } return false; case 1: f(b.rotated()); return true;
+			case 2: f(b.sliced(b.extension().first() + 1, b.extension().last())); return true; case 3: if constexpr(DD == 1) { f(b.strided(2)); return true; } return false; default: f(b.unrotated()); return true; }
+	}
+	return false;
+}
 template<class AA, class F, int DD = D> void with_view(int kind, AA& b, F&& f) {
 	if constexpr(DD >= 1) {
 		switch(kind % 6) { case 5: if constexpr(DD >= 3) { f(b.rotated().transposed().unrotated()); } break; case 0: if constexpr(DD >= 2) { f(b.transposed()); } break; case 1: f(b.rotated()); break; case 2: f(b.sliced(b.extension().first() + 1, b.extension().last())); break; case 3: f(b.strided(2)); break; default: f(b.unrotated()); break; }
@@ -162,10 +170,14 @@ template<int DD> void history_t(Case& c) {
 				if(g.chance(1, 2)) swap(*A.a, *B.a); else A.a->swap(*B.a); if(registry().special() != c0) V("C04:swap:touched-elements", "swap of arrays touched elements"); std::swap(A.m, B.m); if(POCS) { std::swap(A.aid, B.aid); std::swap(A.agen, B.agen); } break; } break;
 			case 10: case 11: { if(!A.a || !B.a || a == b) break; Model vm; MV mv; int k = int(g.below(6)); if(!view_of(k, B.m, vm, mv)) break; static char const* VN[] = {"transposed", "rotated", "sliced", "strided", "unrotated", "inner-transposed"};
 				opk = std::string("assign-from-view") + (A.m.ext == vm.ext ? "(same-extents)" : "(other-extents)"); d << opk << "(" << a << "<-" << b << "." << VN[k] << ")"; cur_op = d.str(); op(opk); softcfg().opk = opk;
-				with_view(k, *B.a, [&](auto&& v) { *A.a = v; }); A.m = vm; A.m.base_known = false; had_assign_over_state = true;
+				{ bool done_const = false; if(g.chance(1, 3)) { done_const = with_const_view(k, *B.a, [&](auto&& v) { auto const& cv = v; *A.a = cv; }); if(done_const) count("assign-from-const-view"); }
+					if(!done_const) with_view(k, *B.a, [&](auto&& v) { if(g.chance(1, 3)) { auto const& cv = v; *A.a = cv; } else { *A.a = v; } }); }
+				A.m = vm; A.m.base_known = false; had_assign_over_state = true;
 				break; }
 			case 12: { if(!B.a || a == b) break; Model vm; MV mv; int k = int(g.below(6)); if(!view_of(k, B.m, vm, mv)) break; opk = "ctor(view)"; d << opk << "(" << a << "<-" << b << " view" << k << ")"; cur_op = d.str(); op(opk); softcfg().opk = opk; A.a.reset(); auto al = pick_alloc(g); bool wa = g.chance(1, 2);
-				with_view(k, *B.a, [&](auto&& v) { if(wa) A.a.emplace(v, al); else A.a.emplace(v); }); A.m = vm; A.m.base_known = false; A.aid = wa ? al.id : 0; A.agen = 0; break; }
+				{ bool done_const = false; if(g.chance(1, 3)) done_const = with_const_view(k, *B.a, [&](auto&& v) { if(wa) A.a.emplace(v, al); else A.a.emplace(v); });
+					if(!done_const) with_view(k, *B.a, [&](auto&& v) { if(wa) A.a.emplace(v, al); else A.a.emplace(v); }); }
+				A.m = vm; A.m.base_known = false; A.aid = wa ? al.id : 0; A.agen = 0; break; }
 			case 13: if constexpr(DD >= 1) { if(!A.a) break; opk = std::string("assign-from-other-element-type"); Model nm = fresh(e); if(nm.n() == 0) break; opk += (A.m.ext == e ? "(same-extents)" : (A.m.n() == nm.n() ? "(same-count)" : "(other-extents)")); d << opk << "(" << a << "," << estr() << ")"; cur_op = d.str(); op(opk); softcfg().opk = opk;
 				OArr O(make_extensions<D>(e)); { Other* p = O.data_elements(); for(L k2 = 0; k2 < nm.n(); ++k2) p[k2] = mko(nm.ids[std::size_t(k2)]); } *A.a = O; A.m = nm; had_assign_over_state = true; break; } break;
 			case 14: if constexpr(DD >= 1) { if(!A.a || D == 0) break; c06 = true; bool fill = g.chance(1, 2); bool rv = !fill && g.chance(1, 4); opk = rv ? "reextent(&&)" : (fill ? "reextent(x,v)" : "reextent(x)");
